@@ -45,7 +45,7 @@ def r1_winner_filtered(ctx):
         lp, b = _loop_ballot(f)
         N = Normalizer(f.node, inline=False)
         # comprehension rebuilding each position
-        rebuild = [n for n in astx.walk_own(lp) if isinstance(n, ast.ListComp) and astx.u(n.generators[0].iter) == f"{b}.ranking"]
+        rebuild = [n for n in astx.walk_own(lp) if isinstance(n, astx.LCOMP) and astx.u(n.generators[0].iter) == f"{b}.ranking"]
         good = False
         k = ""
         if len(rebuild) == 1:
@@ -61,7 +61,7 @@ def r1_winner_filtered(ctx):
         ctx.check(good, f, rebuild[0] if rebuild else lp, f"{name}: every position keeps c iff c != winner", k,
                   f"position rebuild filter is `{k}`; documented: drop exactly the winner from every position")
         # emptied positions dropped
-        drop = [n for n in astx.walk_own(lp) if isinstance(n, ast.ListComp) and isinstance(n.generators[0].iter, ast.Name)
+        drop = [n for n in astx.walk_own(lp) if isinstance(n, astx.LCOMP) and isinstance(n.generators[0].iter, ast.Name)
                 and any("len(" in astx.u(t) for t in n.generators[0].ifs)]
         good = False
         if len(drop) == 1:
@@ -130,7 +130,7 @@ def r4_random_rule(ctx):
             if kw.arg == "population":
                 pop = kw.value
         sk = Normalizer(f.node, inline=False, int_atoms=lambda a: True).key(size) if size is not None else ""
-        okpop = isinstance(pop, ast.ListComp) and len(pop.generators) == 1 and [astx.u(t) for t in pop.generators[0].ifs] == [pop.generators[0].target.id + ".ranking"] \
+        okpop = isinstance(pop, astx.LCOMP) and len(pop.generators) == 1 and [astx.u(t) for t in pop.generators[0].ifs] == [pop.generators[0].target.id + ".ranking"] \
             and astx.is_name(pop.elt, pop.generators[0].target.id)
         src = astx.u(pop.generators[0].iter) if okpop else ""
         # src must be the list filled by the unit expansion
@@ -248,7 +248,7 @@ def r6_dropped(ctx):
     for name in TRANSFERS:
         f = prog.find_func(name)
         rets = [n for n in astx.walk_own(f.node) if isinstance(n, ast.Return)]
-        comps = [n for r in rets for n in ast.walk(r) if isinstance(n, ast.ListComp)]
+        comps = [n for r in rets for n in ast.walk(r) if isinstance(n, astx.LCOMP)]
         good = False
         d = ""
         if len(comps) == 1:
